@@ -28,6 +28,7 @@ def _child(job, outpath, mem_bytes):
         z3.set_param("memory_max_size", int(mem_bytes / (1 << 20) * 0.8) if mem_bytes else 0)
         key = job.get("ir", "release")
         eng = E.Engine(_MODS[key], max_steps=job.get("max_steps", 3_000_000), solver_timeout_ms=job.get("solver_timeout_ms", 120000))
+        eng.small_index_fork = job.get("small_index_fork", 0)
         opts = {k: job[k] for k in ("path_budget", "time_budget", "concrete") if k in job}
         res = R.run_job(_MODS[key], job["harness"], {int(k): v for k, v in job.get("params", {}).items()}, opts, engine=eng)
     except MemoryError:
